@@ -2,6 +2,8 @@ package checks
 
 import (
 	"fmt"
+	"github.com/ethereum/go-ethereum/common"
+	"github.com/ethereum/go-ethereum/core/types/goattypes"
 	"math/rand"
 	"sort"
 	"strings"
@@ -233,9 +235,10 @@ func c01Variants(r *rand.Rand, n int) []voteVariant {
 }
 
 type c01Env struct {
-	c, tw    *world.Chain
-	m        *bridgeModel
-	stranger []*world.Member
+	c, tw     *world.Chain
+	m         *bridgeModel
+	stranger  []*world.Member
+	lastField string // which payload field the last "payload" variant changed
 }
 
 // c01Build renders a variant into a message with a vote, against the given context.
@@ -324,7 +327,8 @@ func c01Build(env *c01Env, g *world.Group, kind string, v voteVariant, salt int)
 	}
 	setVote(msg, vote)
 	if v.Doc == "payload" {
-		mutatePayload(msg)
+		what := mutatePayloadField(msg, salt, env.m)
+		env.lastField = what
 	}
 	return msg, true
 }
@@ -369,8 +373,21 @@ func c01History(c *vc.Ctx, n, hist int) {
 	for i := 0; i < 3; i++ {
 		env.stranger = append(env.stranger, world.NewMember(c.Seed, "stranger", i))
 	}
-	// block 1: withdrawals to work on
-	b, err := ch.Step(world.StepOpts{Reqs: &world.Requests{Bridge: bridgeReqs(env.m.withdrawRequests(24))}})
+	// block 1: withdrawals to work on. In histories without elections (long period) the execution layer also asks for
+	// the removal of one or two voters: until the next election they stay current voters (listed, keys in use, epoch
+	// unchanged), so the quorum is still counted over the whole group
+	setup := &world.Requests{Bridge: bridgeReqs(env.m.withdrawRequests(24))}
+	if hist%2 == 0 && n >= 1 {
+		nrem := 1
+		if n >= 4 {
+			nrem = 2
+		}
+		for k := 0; k < nrem; k++ {
+			setup.Relayer.Removes = append(setup.Relayer.Removes, &goattypes.RemoveVoterRequest{Voter: common.BytesToAddress(w.Members[len(w.Members)-1-k].Addr)})
+			c.Count("removals_pending_during_the_votes", 1)
+		}
+	}
+	b, err := ch.Step(world.StepOpts{Reqs: setup})
 	if err != nil {
 		c.Inconclusive("setup block: %v", err)
 		return
@@ -378,6 +395,44 @@ func c01History(c *vc.Ctx, n, hist int) {
 	if _, err := tw.Apply(b, b.Req.Txs); err != nil {
 		c.Inconclusive("twin setup block: %v", err)
 		return
+	}
+	if hist%2 == 0 {
+		// two processing batches for twin withdrawals (same address, same amount) before the rounds start: a vote for a fee
+		// bump of one batch can then be offered for the other
+		for k := 0; k < 2; k++ {
+			g, err := ch.Group(w.Members)
+			if err != nil {
+				break
+			}
+			msg, ok := env.m.payload("process", g.Proposer.AddrStr, k)
+			if !ok {
+				break
+			}
+			v, err := ch.QuorumVote(g, msg)
+			if err != nil {
+				break
+			}
+			setVote(msg, v)
+			num, seq, _ := ch.Account(g.Proposer.Addr)
+			raw, err := w.SignTx(world.TxSpec{Msgs: []sdkMsg{msg}, Priv: g.Proposer.Tx, AccNum: num, Seq: seq})
+			if err != nil {
+				break
+			}
+			ch.Inject(raw)
+			pb, err := ch.Step(world.StepOpts{})
+			if err != nil {
+				c.Inconclusive("prelude block: %v", err)
+				return
+			}
+			if _, err := tw.Apply(pb, pb.Req.Txs); err != nil {
+				c.Inconclusive("twin prelude block: %v", err)
+				return
+			}
+			if len(pb.Resp.TxResults) > 1 && pb.Resp.TxResults[1].Code == 0 {
+				env.m.accepted(msg)
+				c.Count("twin_batches_prepared", 1)
+			}
+		}
 	}
 	rounds := c.Pick(5, 12)
 	acceptedControls := map[string]int{}
@@ -402,7 +457,7 @@ func c01History(c *vc.Ctx, n, hist int) {
 				later = append(later, v)
 				continue
 			}
-			if v.Expect == control || len(items) >= 11 {
+			if v.Expect == control || len(items) >= 10 {
 				continue
 			}
 			kind := voteKinds[r.Intn(len(voteKinds))]
@@ -415,6 +470,25 @@ func c01History(c *vc.Ctx, n, hist int) {
 				}
 			}
 			items = append(items, item{kind, v, msg})
+		}
+		// directed: a genuine quorum for a processing / fee-bump payload, offered with the withdrawal id or the batch id of
+		// its twin (same address, same amounts: the moved message is valid in everything but the vote)
+		for _, v := range vars {
+			if v.Doc != "payload" || v.Expect != mustFail {
+				continue
+			}
+			for _, kind := range []string{"replace", "process"} {
+				if len(items) >= 12 {
+					break
+				}
+				env.lastField = ""
+				msg, ok := c01Build(env, g, kind, v, 1+3*r.Intn(300))
+				if ok && (strings.HasPrefix(env.lastField, "batch id") || strings.HasPrefix(env.lastField, "withdrawal id")) {
+					items = append(items, item{kind, v, msg})
+					c.Count("votes_moved_to_a_twin_id_or_batch_"+kind, 1)
+				}
+			}
+			break
 		}
 		// the control: rotate kinds and genuine shapes
 		var ctrls []voteVariant
